@@ -130,6 +130,16 @@ def _binning_loops(ctx):
     return f, outer[0], inner[0]
 
 
+def _pair_target(loop):
+    """the (start, end) pair a loop binds: target `(a, b)` or `(i, (a, b))` (with or without an enumerate index)"""
+    t = loop.target
+    if isinstance(t, ast.Tuple) and len(t.elts) == 2 and isinstance(t.elts[1], ast.Tuple) and len(t.elts[1].elts) == 2:
+        t = t.elts[1]
+    if isinstance(t, ast.Tuple) and len(t.elts) == 2 and all(isinstance(x, ast.Name) for x in t.elts):
+        return [x.id for x in t.elts]
+    raise AnalysisError(f'blacklisted_binning: loop target `{src(loop.target)}` is not a (start, end) pair')
+
+
 def value_numbering_at(f, target_node, names, max_visits=2):
     """Must-equality by value numbering along all CFG paths of f to `target_node` (a For AST node): returns the set of
     tuples (vid(name) for name in names) observed when the node is entered from outside (label of arrival irrelevant)."""
@@ -183,12 +193,8 @@ def window_analysis(ctx):
     """Analyse the fetch window of blacklisted_binning. Returns dict with the yield node, problems w.r.t. the C17 clauses
     (contains the bin, at most F, inside the gap) and problems w.r.t. exactness (margin as large as the gap allows; C08 relies on it)."""
     f, outer, inner = _binning_loops(ctx)
-    if not (isinstance(outer.target, ast.Tuple) and isinstance(outer.target.elts[1], ast.Tuple)):
-        raise AnalysisError('blacklisted_binning: outer loop target is not (i, (start, end))')
-    bl_start, bl_end = [x.id for x in outer.target.elts[1].elts]
-    itgt = inner.target
-    pos = itgt.elts[1] if isinstance(itgt, ast.Tuple) and isinstance(itgt.elts[-1], ast.Tuple) else itgt
-    ps, pe = [x.id for x in pos.elts]
+    bl_start, bl_end = _pair_target(outer)
+    ps, pe = _pair_target(inner)
     frag = [a.arg for a in f.args.args if 'fragment' in a.arg][0]
     ys = [y for y in walk_no_nested(inner) if isinstance(y, ast.Yield) and isinstance(y.value, ast.Tuple) and len(y.value.elts) == 4]
     if len(ys) != 1:
@@ -198,7 +204,8 @@ def window_analysis(ctx):
     arm = mod.parent[mod.parent[y]]
     stmts = arm.orelse if any(any(x is y for x in ast.walk(s)) for s in getattr(arm, 'orelse', [])) else arm.body
     cfg = CFG(stmts, exceptions=False)
-    fi = itgt.elts[0].id if isinstance(itgt, ast.Tuple) and isinstance(itgt.elts[0], ast.Name) else None
+    itgt = inner.target
+    fi = itgt.elts[0].id if isinstance(itgt, ast.Tuple) and len(itgt.elts) == 2 and isinstance(itgt.elts[0], ast.Name) and isinstance(itgt.elts[1], ast.Tuple) else None
     results = []
     for p, _ in cfg.paths():
         env = {}
@@ -353,16 +360,20 @@ def r3(ctx):
     ctx.emit('C17-R3', not bad, BINCOUNTS, inner, 'no enumerate-counter test against another enumeration\'s length' if not bad else
              f'positional tests {bad} compare the counter of the equalised-bin enumeration with the bin count of a different enumeration', key='same-enumeration')
     # local bin size
-    asg = {src(s.targets[0]): s for s in walk_no_nested(outer) if isinstance(s, ast.Assign) and isinstance(s.targets[0], ast.Name)}
-    tb = asg.get('total_bins')
-    lb = asg.get('local_bin_size')
-    bl_start = outer.target.elts[1].elts[0].id
+    # the defining assignments: the one computed from fill_range (a later `total_bins = 1` only guards the division) / the one that is not a
+    # `None` sentinel
+    alls = sorted([s_ for s_ in walk_no_nested(outer) if isinstance(s_, ast.Assign) and isinstance(s_.targets[0], ast.Name)], key=lambda s_: s_.lineno)
+    tbs = [s_ for s_ in alls if src(s_.targets[0]) == 'total_bins' and not isinstance(s_.value, ast.Constant)]
+    lbs = [s_ for s_ in alls if src(s_.targets[0]) == 'local_bin_size' and not (isinstance(s_.value, ast.Constant) and s_.value.value is None)]
+    tb = tbs[0] if len(tbs) == 1 else None
+    lb = lbs[0] if len(lbs) == 1 else None
+    bl_start = _pair_target(outer)[0]
     ok = tb is not None and lb is not None and 'fill_range(current, ' + bl_start + ', bin_size)' in src(tb.value) and \
         src(lb.value).replace(' ', '') in (f'int(({bl_start}-current)/total_bins)', f'({bl_start}-current)//total_bins')
     okuse = 'local_bin_size' in src(inner.iter)
     ctx.emit('C17-R3', ok and okuse, BINCOUNTS, lb if lb is not None else outer, f'equalised bin size `{src(lb.value) if lb is not None else None}` with total_bins = `{src(tb.value) if tb is not None else None}` is used by the bin loop',
              key='local-bin-size')
-    zero = [s for s in walk_no_nested(outer) if isinstance(s, ast.If) and src(s.test) == 'total_bins == 0']
+    zero = [s for s in walk_no_nested(outer) if isinstance(s, ast.If) and pred_is(s.test, lambda e: e['t'] == 0, {'total_bins': 't'}, consts=(0, 1))]
     ctx.emit('C17-R3', bool(zero), BINCOUNTS, zero[0] if zero else outer, 'division by a zero bin count is guarded', key='zero-bins-guard', nontrivial=False)
 
 
